@@ -80,9 +80,13 @@ def probe_open(world, r, files=None, mode="r", discard=False, directory=None):
     if status == "ok":
         return payload
     if status == "died":
+        st = payload.get("wait_status") if isinstance(payload, dict) else None
+        if isinstance(st, int) and os.WIFSIGNALED(st) and os.WTERMSIG(st) == 9:
+            raise env.HarnessError("open probe was killed from outside (SIGKILL)")
         return {"status": "hard-death", "detail": payload}
     if status == "timeout":
-        return {"status": "timeout"}
+        # 60 s for opening a few small files: the host is starved, not the code slow
+        raise env.HarnessError("open probe timed out")
     return {"status": "harness_error", "detail": payload}
 
 
@@ -333,6 +337,10 @@ class IH5CrashEngine:
                 at = int(open(progress).read().strip())
             except Exception:
                 raise env.HarnessError(f"epoch died before making progress: {payload}")
+            if code == -9:
+                # SIGKILL can only come from outside the simulation (the shim ends a process with
+                # exit status 137): host trouble, not an observation about the code
+                raise env.HarnessError(f"epoch process was killed from outside (SIGKILL) while executing op {at}")
             if code != 137:
                 agg["violations"].append({"prop": "C11", "oracle": "process-died", "detail": f"process died with status {code} while executing op {at} ({ops[at]['op']}) in epoch {epoch}", "shape": str(code), "step": at})
                 break
@@ -584,8 +592,10 @@ class IH5CrashEngine:
             for p in range(0, len(rn) + 1):
                 mixed = rn[:p] + blk_old[p:]
                 out["torn_userblock_prefixes"] += 1
-                tmp = os.path.join(env.scratch_base(), f"verif-ub-{os.getpid()}.bin")
-                with open(tmp, "wb") as f:
+                import tempfile
+
+                fd, tmp = tempfile.mkstemp(prefix="verif-ub-", suffix=".bin", dir=env.scratch_base())
+                with os.fdopen(fd, "wb") as f:
                     f.write(mixed)
                 try:
                     got = IH5UserBlock.load(tmp)
